@@ -43,10 +43,12 @@ class Ctx:
         self.fns = fns
         self.consts, self.layout, self.bound_fields = source_facts(repo)
         self.ES, self.EA = self.layout["EntryBound"]
+        self.local_types = set(re.findall(r"^(?:pub(?:\([\w:]+\))? )?(?:struct|enum|trait) (\w+)", open(repo + "/src/sorter.rs").read(), re.M)) | {"sorter"}
         self.dump = dump
 
     def fn(self, ty, meth):
         m = Machine(self.fns, self.consts, self.layout)
+        m.local_types = self.local_types
         f = m.resolve("%s::%s" % (ty, meth))
         if f is None:
             raise Unsupported("function %s::%s not found in MIR" % (ty, meth))
@@ -54,6 +56,7 @@ class Ctx:
 
     def machine(self, hooks=None, depth=80):
         m = Machine(self.fns, self.consts, self.layout, hooks=hooks, max_depth=depth)
+        m.local_types = self.local_types
         if self.dump is not None:
             m.smt_dump = self.dump
         return m
@@ -766,11 +769,17 @@ def h_sorter_faults(ctx):
     def body(res):
         covers = {"ok-path": False, "err-path": False, "convert-site": False}
         tot = None
+        targets = []
         for fname in FALLIBLE_FNS:
             try:
-                fn = ctx.fn("Sorter", fname)
+                targets.append(("Sorter::" + fname, ctx.fn("Sorter", fname)))
             except Unsupported:
                 continue
+        for f_ in ctx.fns:
+            if f_.name.startswith("merger::") and "{closure" not in f_.name and f_.short in ("into_stream_merger_iter", "write_into_stream_writer", "next"):
+                targets.append(("Merger::" + f_.short, f_))
+        res["targets"] = [t_[0] for t_ in targets]
+        for fname, fn in targets:
             if not fn.ret.startswith(("std::result::Result<", "Result<")):
                 continue
 
@@ -816,10 +825,10 @@ def h_sorter_faults(ctx):
             so = build_sorter(ctx, ctx.machine(), st0, bv(0), False, True, False, bv(0), False)[0].ghost["ret"]
             st = State()
             vals = [Opaque(nm) for nm in so.names]
-            st.heap[("O", "sorter")] = Struct("Sorter", vals, so.names)
+            st.heap[("O", "sorter")] = Struct("Sorter", vals, so.names) if fname.startswith("Sorter::") else Opaque("self")
 
             def on_end(s, how, fname=fname):
-                where = "end of Sorter::" + fname
+                where = "end of " + fname
                 if how == "panic":
                     ev = s.ghost["events"][-1]
                     m.oblige(s, z3.BoolVal(False), "C12:panic-reachable:" + ev[2][:50], ev[1])
@@ -851,7 +860,7 @@ def h_sorter_faults(ctx):
                 tot.stats["unmodelled"] |= m.stats["unmodelled"]
                 for k_, v_ in m.stats["ob_kinds"].items():
                     tot.stats["ob_kinds"][k_] = tot.stats["ob_kinds"].get(k_, 0) + v_
-        res["bounds"] = ("Sorter::{%s}: all paths, every non-tracked value nondeterministic, loops closed by abstract-state fixpoint; closures passed to iterator adaptors "
+        res["bounds"] = ("Sorter::{%s} and Merger::into_stream_merger_iter / write_into_stream_writer / MergerIter::next: all paths, every non-tracked value nondeterministic, loops closed by abstract-state fixpoint; closures passed to iterator adaptors "
                          "(the per-chunk seek / Reader::new in merge_chunks and extract_reader_cursors_and_merger) are NOT entered" % ", ".join(FALLIBLE_FNS))
         finish(res, tot, covers)
         return tot
